@@ -41,5 +41,10 @@ func init() {
 			Old: "\ths.heightSubsLk.Lock()\n\tif hs.Height() >= height {\n\t\t// This is a rare case", New: "\ths.heightSubsLk.Lock()\n\tif height <= hs.Height() {\n\t\t// This is a rare case"},
 		Variant{Prop: "C12", Name: "benign-is-commuted", File: st,
 			Old: "\tif err != nil && !errors.Is(err, errElapsedHeight) {", New: "\tif !errors.Is(err, errElapsedHeight) && err != nil {"},
+			// the retry loop of SetHeight with its exit carried by a flag (benign F2-6) and a broken twin
+		Variant{Prop: "C12", Name: "benign-publish-retry-loop-exit-by-flag", File: hs,
+			Old: "func (hs *heightSub) SetHeight(height uint64) {\n\tfor {\n\t\tcurr := hs.height.Load()\n\t\tif curr >= height {\n\t\t\treturn\n\t\t}\n\t\tif !hs.height.CompareAndSwap(curr, height) {\n\t\t\tcontinue\n\t\t}\n\n\t\ths.heightSubsLk.Lock()\n\t\tdefer hs.heightSubsLk.Unlock()\n\n\t\tfor ; curr <= height; curr++ {\n\t\t\ths.notify(curr, true)\n\t\t}\n\t\treturn\n\t}\n}", New: "func (hs *heightSub) SetHeight(height uint64) {\n\tvar curr uint64\n\tfor swapped := false; !swapped; {\n\t\tcurr = hs.height.Load()\n\t\tif curr >= height {\n\t\t\treturn\n\t\t}\n\t\tswapped = hs.height.CompareAndSwap(curr, height)\n\t}\n\n\ths.heightSubsLk.Lock()\n\tdefer hs.heightSubsLk.Unlock()\n\n\tfor ; curr <= height; curr++ {\n\t\ths.notify(curr, true)\n\t}\n}"},
+		Variant{Prop: "C12", Name: "publish-retry-loop-left-after-a-lost-swap", File: hs, Expect: "C12.c",
+			Old: "func (hs *heightSub) SetHeight(height uint64) {\n\tfor {\n\t\tcurr := hs.height.Load()\n\t\tif curr >= height {\n\t\t\treturn\n\t\t}\n\t\tif !hs.height.CompareAndSwap(curr, height) {\n\t\t\tcontinue\n\t\t}\n\n\t\ths.heightSubsLk.Lock()\n\t\tdefer hs.heightSubsLk.Unlock()\n\n\t\tfor ; curr <= height; curr++ {\n\t\t\ths.notify(curr, true)\n\t\t}\n\t\treturn\n\t}\n}", New: "func (hs *heightSub) SetHeight(height uint64) {\n\tvar curr uint64\n\tfor swapped := false; !swapped; {\n\t\tcurr = hs.height.Load()\n\t\tif curr >= height {\n\t\t\treturn\n\t\t}\n\t\ths.height.CompareAndSwap(curr, height)\n\t\tswapped = true\n\t}\n\n\ths.heightSubsLk.Lock()\n\tdefer hs.heightSubsLk.Unlock()\n\n\tfor ; curr <= height; curr++ {\n\t\ths.notify(curr, true)\n\t}\n}"},
 	)
 }
